@@ -11,7 +11,7 @@ PROP = {
     'checker_vo': 'conf/ConfCheck.vo',
     'scenario': 'c05',
     'evals': ['agrees', 'c05_ok', 'c05_strict'],
-    'extra': {'quick': {'direct': 2000, 'e2e': 150}, 'thorough': {'direct': 100000, 'e2e': 600}},
+    'extra': {'quick': {'direct': 2000, 'e2e': 500}, 'thorough': {'direct': 100000, 'e2e': 2000}},
     'replay_header': C05_HEADER,
     'replay_footer': C05_FOOTER,
     'stats_keys': ['direct_cases', 'e2e_cases', 'timing_ms', 'final_repo_sync'],
